@@ -193,6 +193,7 @@ const (
 	WDeadline        // SetWriteDeadline(unique instant)
 	WInvalid         // an invalid request
 	WClose           // a close sent by some path (C09)
+	WJSONBad         // WriteJSON of a value encoding/json cannot encode (C20)
 )
 
 const (
@@ -229,7 +230,7 @@ type WStep struct {
 }
 
 func (s WStep) Desc() string {
-	names := []string{"WriteMessage", "NextWriter", "WriteJSON", "Prepared", "WriteControl", "CtlViaWriteMessage", "CtlViaNextWriter", "EnableWriteCompression", "SetCompressionLevel", "SetWriteDeadline", "Invalid", "Close"}
+	names := []string{"WriteMessage", "NextWriter", "WriteJSON", "Prepared", "WriteControl", "CtlViaWriteMessage", "CtlViaNextWriter", "EnableWriteCompression", "SetCompressionLevel", "SetWriteDeadline", "Invalid", "Close", "WriteJSON(unencodable)"}
 	d := names[s.Kind]
 	switch s.Kind {
 	case WMsg, WNext, WJSON, WPrepared, WControl, WCtlMsg, WCtlNext:
@@ -257,6 +258,7 @@ type ProgOpts struct {
 	Invalid     bool // include invalid requests
 	Deadlines   bool // include SetWriteDeadline steps with unique instants
 	NoCtlViaMsg bool // do not send control messages through WriteMessage/NextWriter
+	BadJSON     bool // include WriteJSON calls with unencodable values
 }
 
 func genParts(r *gen.R, n int) []Part {
@@ -398,6 +400,10 @@ func genProgram(r *gen.R, cfg Cfg, o ProgOpts) []WStep {
 		open = s.Kind == WNext && !s.Explicit
 		if o.Invalid && r.Chance(1, 3) {
 			prog = append(prog, WStep{Kind: WInvalid, Invalid: r.Intn(nInvalid)})
+			open = false
+		}
+		if o.BadJSON && r.Chance(1, 4) {
+			prog = append(prog, WStep{Kind: WJSONBad})
 			open = false
 		}
 	}
@@ -683,6 +689,17 @@ func (w *Writer) Do(i int, s WStep) StepResult {
 		w.CurDL = w.dl(s.DL)
 	case WInvalid:
 		w.doInvalid(i, s, &res)
+	case WJSONBad:
+		// the encoder fails before writing anything; WriteJSON still closes its writer, which
+		// sends an empty text message, and reports the encoding error
+		w.implicitClosed()
+		w.begin(i, "WriteJSON")
+		err := c.WriteJSON(map[string]interface{}{"unencodable": make(chan int)})
+		w.end(err)
+		if err == nil {
+			res.Note = "WriteJSON of an unencodable value returned nil"
+		}
+		w.Sent = append(w.Sent, Sent{Type: 1, Data: []byte{}, Step: i, Err: nil, Completed: true, CompressedExpected: w.compressedNow(1)})
 	}
 	if w.AfterOp != nil {
 		w.AfterOp(i, "step")
